@@ -977,15 +977,7 @@ func ruleParLineBreak(c *Ctx, r *R) {
 	var best *ast.FuncDecl
 	var bestMissing []string
 	bestBad := ""
-	for _, cj := range conjuncts(loop.Cond) {
-		un, ok := unparen(cj).(*ast.UnaryExpr)
-		if !ok || un.Op != token.NOT {
-			continue
-		}
-		call, ok := unparen(un.X).(*ast.CallExpr)
-		if !ok {
-			continue
-		}
+	for _, call := range lineBreakGuards(loop) {
 		h := c.DeclOf(c.Callee(call))
 		if h == nil || h.Body == nil {
 			continue
@@ -1043,4 +1035,51 @@ func ruleParLineBreak(c *Ctx, r *R) {
 	r.check(bestBad == "", "line break only", c.Pos(best), best.Name.Name+" stops the loop only when the current token starts a later line", bestBad+": an expression is cut in the middle of a line")
 	r.check(len(bestMissing) == 0, "statement-final tokens", c.Pos(best), best.Name.Name+" stops after every token that can end a statement",
 		best.Name.Name+" does not end the expression at a line break after "+strings.Join(bestMissing, " ")+": the next line's ( [ or operator is applied to the previous statement")
+}
+
+// lineBreakGuards: the calls that can stop the climbing loop before an operator is consumed —
+// a conjunct `!h(..)` of the loop condition, or a leading `if h(..) { break }` of its body
+// (the two spellings of the same test).
+func lineBreakGuards(loop *ast.ForStmt) []*ast.CallExpr {
+	var out []*ast.CallExpr
+	for _, cj := range conjuncts(loop.Cond) {
+		if un, ok := unparen(cj).(*ast.UnaryExpr); ok && un.Op == token.NOT {
+			if call, ok := unparen(un.X).(*ast.CallExpr); ok {
+				out = append(out, call)
+			}
+		}
+	}
+	for _, st := range loop.Body.List {
+		ifs, ok := st.(*ast.IfStmt)
+		if !ok || ifs.Init != nil || ifs.Else != nil || len(ifs.Body.List) != 1 {
+			break
+		}
+		br, ok := ifs.Body.List[0].(*ast.BranchStmt)
+		if !ok || br.Tok != token.BREAK || br.Label != nil {
+			break
+		}
+		call, ok := unparen(ifs.Cond).(*ast.CallExpr)
+		if !ok {
+			break
+		}
+		out = append(out, call)
+	}
+	return out
+}
+
+// isLineBreakGuardBreak: the break statement is the body of a leading `if h(..) { break }`.
+func isLineBreakGuardBreak(loop *ast.ForStmt, br *ast.BranchStmt) bool {
+	for _, st := range loop.Body.List {
+		ifs, ok := st.(*ast.IfStmt)
+		if !ok || ifs.Init != nil || ifs.Else != nil || len(ifs.Body.List) != 1 {
+			return false
+		}
+		if _, ok := unparen(ifs.Cond).(*ast.CallExpr); !ok {
+			return false
+		}
+		if ifs.Body.List[0] == ast.Stmt(br) {
+			return true
+		}
+	}
+	return false
 }
